@@ -20,7 +20,7 @@ use winterfell::{
     },
     matrix::ColMatrix,
     verify, AcceptableOptions, Air, AirContext, Assertion, AuxRandElements, ConstraintCompositionCoefficients,
-    DefaultConstraintEvaluator, DefaultTraceLde, EvaluationFrame, FieldExtension, Proof, ProofOptions, Prover, StarkDomain,
+    DefaultConstraintEvaluator, DefaultTraceLde, EvaluationFrame, FieldExtension, Proof, ProofOptions, Prover, Serializable, StarkDomain,
     TraceInfo, TracePolyTable, TraceTable, TransitionConstraintDegree,
 };
 
@@ -231,6 +231,43 @@ fn run<B: Base>(field: &str, ext: FieldExtension, rng: &mut Rng, cases: &mut u64
                 Ok(Ok(())) => {},
                 Ok(Err(e)) => fail(format!("the verifier rejects the honest proof of a valid execution ({e}): {ctx}")),
                 Err(_) => fail(format!("the verifier panicked on an honest proof: {ctx}")),
+            }
+            // the field the proof claims: every other modulus (other lengths, other content) must be refused with an
+            // error before anything is derived from it - never a panic (C06), never acceptance (C18)
+            {
+                let ctx_len = proof.context.to_bytes().len();
+                let ti_len = proof.context.trace_info().to_bytes().len();
+                let old_len = bytes[ti_len] as usize;
+                let real = bytes[ti_len + 1..ti_len + 1 + old_len].to_vec();
+                let mut claims: Vec<Vec<u8>> = Vec::new();
+                for l in [0usize, 1, 6, 7, 8, 9, 13, 14, 15, 16, 17, 31, 32, 33, 64, 254] {
+                    claims.push(vec![0xFF; l]);
+                    let mut c = real.clone();
+                    c.resize(l, 0);
+                    if c != real {
+                        claims.push(c); // the real modulus truncated / extended by zero bytes
+                    }
+                }
+                let mut wrong = real.clone();
+                wrong[0] ^= 2;
+                claims.push(wrong);
+                for claim in claims {
+                    let mut forged = bytes[..ti_len].to_vec();
+                    forged.push(claim.len() as u8);
+                    forged.extend_from_slice(&claim);
+                    forged.extend_from_slice(&bytes[ti_len + 1 + old_len..]);
+                    let _ = ctx_len;
+                    *cases += 1;
+                    let r = catch_unwind(AssertUnwindSafe(|| match Proof::from_bytes(&forged) {
+                        Ok(p) => verify::<TestAir<B>, H<B>, DefaultRandomCoin<H<B>>>(p, Pub(specs.clone()), &acceptable).is_ok(),
+                        Err(_) => false,
+                    }));
+                    match r {
+                        Ok(false) => {},
+                        Ok(true) => fail(format!("a proof claiming the {}-byte modulus {:02x?} is accepted: {ctx}", claim.len(), &claim[..claim.len().min(16)])),
+                        Err(_) => fail(format!("the verifier panicked on a proof claiming a {}-byte modulus: {ctx}", claim.len())),
+                    }
+                }
             }
             // every asserted value is enforced: changing any single one in the public inputs must lead to rejection
             // (for the two long sequences a seeded sample of three positions)
